@@ -415,6 +415,45 @@ func (en *Engine) runUntilBranch(st *State) ([]*State, *Terminal, error) {
 						continue
 					}
 				}
+				if a, ok := xv.(*AllocV); ok && a.Comment == "makemap" {
+					_, dirty := st.dirty[a.Key()]
+					_, sym := st.heap["mapsym:"+a.Key()]
+					if set, isSet := st.heap["mapset:"+a.Key()]; isSet && !dirty {
+						// a set filled by one insertion per element of an exhaustively visited collection:
+						// membership of k holds iff some element's key equals k
+						m := set.val.(*MapV)
+						cnd, pol := normCond(mkBin(token.EQL, m.Elem, iv, types.Typ[types.Bool]), true)
+						mk := func(s *State, present bool) {
+							f := s.top()
+							if x.CommaOk {
+								tt := x.Type().(*types.Tuple)
+								f.env[x] = mkTuple([]Val{zeroOrIndex(xv, iv, tt.At(0).Type(), present), boolV(present)})
+							} else {
+								f.env[x] = zeroOrIndex(xv, iv, x.Type(), present)
+							}
+						}
+						if b, known := decide(st, cnd); known {
+							mk(st, b == pol)
+							continue
+						}
+						yes, no := st.clone(), st.clone()
+						yes.facts = append(yes.facts, Fact{Cond: cnd, Pol: pol, Instr: x, Seq: len(yes.events)})
+						no.facts = append(no.facts, Fact{Cond: cnd, Pol: !pol, Instr: x, Seq: len(no.events)})
+						mk(yes, true)
+						mk(no, false)
+						return []*State{yes, no}, nil, nil
+					}
+					if !dirty && !sym && !en.mapHasEntries(st, a) {
+						// nothing was ever inserted on this path
+						if x.CommaOk {
+							tt := x.Type().(*types.Tuple)
+							fr.env[x] = mkTuple([]Val{zeroOf(tt.At(0).Type()), boolV(false)})
+						} else {
+							fr.env[x] = zeroOf(x.Type())
+						}
+						continue
+					}
+				}
 				// a read-only table (package-level map assigned once by the initialiser) looked up with a symbolic key:
 				// one continuation per entry (key == k_i) and one for "no entry" — the switch the table stands for
 				if a, ok := xv.(*AllocV); ok && a.Comment == "makemap" {
@@ -489,6 +528,11 @@ func (en *Engine) runUntilBranch(st *State) ([]*State, *Terminal, error) {
 					st.heap["mapkey:"+a.Key()+"["+kv.Key()+"]"] = cell{a, kv}
 				} else {
 					st.heap["mapsym:"+a.Key()] = cell{a, kv}
+					n := int64(0)
+					if c, ok := st.heap["mapsymn:"+a.Key()]; ok {
+						n, _ = constInt(c.val)
+					}
+					st.heap["mapsymn:"+a.Key()] = cell{a, intV(n + 1)}
 				}
 			}
 		case *ssa.MakeInterface:
@@ -1890,8 +1934,44 @@ func (en *Engine) summariseAccumulators(st *State, fr *Frame, lc *loopCtx) {
 		}
 		fr.env[phi] = mkMap(coll, elem, nn, lc.id, phi.Type())
 	}
+	// sets: a local map that was empty before the loop and received exactly one insertion per iteration
+	for hk, c := range st.heap {
+		if !strings.HasPrefix(hk, "mapsym:") {
+			continue
+		}
+		a, ok := c.addr.(*AllocV)
+		if !ok {
+			continue
+		}
+		if _, had := lc.pre[hk]; had {
+			continue
+		}
+		if _, was := lc.pre["mapset:"+a.Key()]; was {
+			continue
+		}
+		hadEntries := false
+		for pk := range lc.pre {
+			if strings.HasPrefix(pk, "map:"+a.Key()+"[") {
+				hadEntries = true
+			}
+		}
+		n, _ := constInt(st.heap["mapsymn:"+a.Key()].val)
+		if hadEntries || n != 1 || en.mapHasEntries(st, a) {
+			continue
+		}
+		mt, isMap := a.Type().Underlying().(*types.Map)
+		if !isMap {
+			continue
+		}
+		st.heap["mapset:"+a.Key()] = cell{a, mkMap(coll, c.val, true, lc.id, types.NewSlice(mt.Key()))}
+		delete(st.heap, hk)
+		delete(st.heap, "mapsymn:"+a.Key())
+	}
 	// memory
 	for hk, c := range st.heap {
+		if c.val == nil || c.val.Type() == nil {
+			continue
+		}
 		if _, isSlice := c.val.Type().Underlying().(*types.Slice); !isSlice {
 			continue
 		}
@@ -2043,4 +2123,24 @@ func (en *Engine) lookupFrozen(st *State, fr *Frame, x *ssa.Lookup, a *AllocV, k
 		out = append(out, miss)
 	}
 	return out
+}
+
+func (en *Engine) mapHasEntries(st *State, a *AllocV) bool {
+	pfx := "map:" + a.Key() + "["
+	for hk := range st.heap {
+		if strings.HasPrefix(hk, pfx) {
+			return true
+		}
+	}
+	return false
+}
+
+func zeroOrIndex(m, k Val, t types.Type, present bool) Val {
+	if !present {
+		return zeroOf(t)
+	}
+	if st, ok := t.Underlying().(*types.Struct); ok && st.NumFields() == 0 {
+		return zeroOf(t)
+	}
+	return mkIndex(m, k, t)
 }
